@@ -836,3 +836,118 @@ def two_replay(ctx, prop, ob, res):
 def boundary_replay(ctx, prop, ob, res):
     return {"status": "unconfirmed", "reason": "boundary-independence lemma: the first machine cycle of this opcode depends on per-instruction "
             "state left over by the previous instruction (currentSubinstructions / currentCycle / currentIsFinishedEarly); no single-instruction replay"}
+
+
+# ------------------------------------------------------------------ ALU / flag helpers against the ISA specification (C01)
+def helper_lemmas(ctx, eng, ce):
+    """each ALU / rotate / flag helper of package cpu, executed on its own from an arbitrary register state, against the
+    corresponding function of spec/sm83.py; everything it must not touch is proved unchanged"""
+    lem = Lem()
+    b = make_base(ctx, eng, ce)
+    p = ctx.prog
+    eng.modular = set()
+    regs = REGS8 + ["sp", "pc"]
+
+    def run(fn, args, st):
+        eng.terminals, eng.obligs = [], []
+        return eng.call_function(st, p.func(fn).name, args)
+
+    def frame(s, pre, changed):
+        return [fld(eng, s, b, r) != fld(eng, pre, b, r) for r in regs if r not in changed]
+
+    def regptr(name):
+        return Ptr(b.cpu.obj, tuple(i for i, _ in p.field_index(b.tid, name)))
+    u8 = z3.BitVec("u8", 8)
+    u16 = z3.BitVec("u16", 16)
+    base = b.st.fork()
+    base.pc.append((fld(eng, base, b, "f") & 0x0f) == 0)
+    A, F = fld(eng, base, b, "a"), fld(eng, base, b, "f")
+    lem.covers.append(("lemma:helpers#cover", base.pcond()))
+    # 8-bit ALU on A
+    for kind, nm in enumerate(["add", "adc", "sub", "sbc", "and", "xor", "or", "cp"]):
+        viol = []
+        for (s, _) in run(CPU + nm, [b.cpu, u8], base.fork()):
+            ra, rf = sm83.alu(kind, A, u8, F)
+            viol.append(z3.And(s.pcond(), z3.Or(fld(eng, s, b, "a") != ra, fld(eng, s, b, "f") != rf, *frame(s, base, ("a", "f")))))
+        lem.add("lemma:helper:%s-matches-the-alu-specification" % nm, z3.Or(*viol) if viol else z3.BoolVal(True))
+    # INC/DEC and the CB rotates/shifts on every 8-bit target they are used with
+    targets = ["a", "b", "c", "d", "e", "h", "l", "m8a"]
+    for nm in ["inc", "dec", "rlc", "rrc", "rl", "rr", "sla", "sra", "swap", "srl"]:
+        viol = []
+        for tg in targets:
+            v0 = fld(eng, base, b, tg)
+            for (s, _) in run(CPU + nm, [b.cpu, regptr(tg)], base.fork()):
+                if nm == "inc":
+                    r = v0 + 1
+                    rf = sm83.flags(r == 0, False, (v0 & 0xf) == 0xf, None, old=F)
+                elif nm == "dec":
+                    r = v0 - 1
+                    rf = sm83.flags(r == 0, True, (v0 & 0xf) == 0, None, old=F)
+                else:
+                    r, rf = sm83.rot(["rlc", "rrc", "rl", "rr", "sla", "sra", "swap", "srl"].index(nm), v0, F)
+                viol.append(z3.And(s.pcond(), z3.Or(fld(eng, s, b, tg) != r, fld(eng, s, b, "f") != rf, *frame(s, base, (tg, "f")))))
+        lem.add("lemma:helper:%s-matches-the-specification-on-every-register" % nm, z3.Or(*viol) if viol else z3.BoolVal(True))
+    # accumulator rotates (Z cleared), DAA, CPL, SCF, CCF
+    for y, nm in enumerate(["rlca", "rrca", "rla", "rra"]):
+        viol = []
+        for (s, _) in run(CPU + nm, [b.cpu], base.fork()):
+            r, rf = sm83.rot(y, A, F)
+            viol.append(z3.And(s.pcond(), z3.Or(fld(eng, s, b, "a") != r, fld(eng, s, b, "f") != (rf & 0x7f), *frame(s, base, ("a", "f")))))
+        lem.add("lemma:helper:%s-matches-the-specification" % nm, z3.Or(*viol) if viol else z3.BoolVal(True))
+    misc = {"daa": lambda: sm83.daa(A, F), "cpl": lambda: (~A, sm83.flags(None, True, True, None, old=F)),
+            "scf": lambda: (A, sm83.flags(None, False, False, True, old=F)), "ccf": lambda: (A, sm83.flags(None, False, False, z3.Not(sm83.cf(F)), old=F))}
+    for nm, want in misc.items():
+        viol = []
+        for (s, _) in run(CPU + nm, [b.cpu], base.fork()):
+            ra, rf = want()
+            viol.append(z3.And(s.pcond(), z3.Or(fld(eng, s, b, "a") != ra, fld(eng, s, b, "f") != rf, *frame(s, base, ("a", "f")))))
+        lem.add("lemma:helper:%s-matches-the-specification" % nm, z3.Or(*viol) if viol else z3.BoolVal(True))
+    # 16-bit: ADD HL,rr ; ADD SP,e ; LD HL,SP+e
+    H, L, SP = fld(eng, base, b, "h"), fld(eng, base, b, "l"), fld(eng, base, b, "sp")
+    hl = z3.Concat(H, L)
+    viol = []
+    for (s, _) in run(CPU + "addHL", [b.cpu, u16], base.fork()):
+        r = hl + u16
+        rf = sm83.flags(None, False, z3.UGT(sm83.zx(hl & 0xfff, 17) + sm83.zx(u16 & 0xfff, 17), 0xfff), z3.UGT(sm83.zx(hl, 17) + sm83.zx(u16, 17), 0xffff), old=F)
+        viol.append(z3.And(s.pcond(), z3.Or(fld(eng, s, b, "h") != sm83.hi(r), fld(eng, s, b, "l") != sm83.lo(r), fld(eng, s, b, "f") != rf,
+                                            *frame(s, base, ("h", "l", "f")))))
+    lem.add("lemma:helper:addHL-matches-the-specification", z3.Or(*viol) if viol else z3.BoolVal(True))
+    e = fld(eng, base, b, "u8a")
+    e16 = z3.SignExt(8, e)
+    hf = z3.UGT(sm83.zx(SP & 0xf, 17) + sm83.zx(sm83.zx(e, 16) & 0xf, 17), 0xf)
+    cfl = z3.UGT(sm83.zx(SP & 0xff, 17) + sm83.zx(e, 17), 0xff)
+    fl = sm83.flags(False, False, hf, cfl)
+    viol = []
+    for (s, _) in run(CPU + "addSP", [b.cpu], base.fork()):
+        viol.append(z3.And(s.pcond(), z3.Or(fld(eng, s, b, "sp") != SP + e16, fld(eng, s, b, "f") != fl, *frame(s, base, ("sp", "f")))))
+    lem.add("lemma:helper:addSP-matches-the-specification", z3.Or(*viol) if viol else z3.BoolVal(True))
+    viol = []
+    for (s, _) in run(CPU + "ldHLSP", [b.cpu], base.fork()):
+        r = SP + e16
+        viol.append(z3.And(s.pcond(), z3.Or(fld(eng, s, b, "h") != sm83.hi(r), fld(eng, s, b, "l") != sm83.lo(r), fld(eng, s, b, "f") != fl,
+                                            *frame(s, base, ("h", "l", "f")))))
+    lem.add("lemma:helper:ldHLSP-matches-the-specification", z3.Or(*viol) if viol else z3.BoolVal(True))
+    # flag predicates and carry calculators
+    x8, y8 = z3.BitVec("x8", 8), z3.BitVec("y8", 8)
+    x16, y16 = z3.BitVec("x16", 16), z3.BitVec("y16", 16)
+    pure = {"cpu.hc8": ([x8, y8], z3.UGT(sm83.zx(x8 & 0xf, 9) + sm83.zx(y8 & 0xf, 9), 0xf)), "cpu.c8": ([x8, y8], z3.UGT(sm83.zx(x8, 9) + sm83.zx(y8, 9), 0xff)),
+            "cpu.hc16": ([x16, y16], z3.UGT(sm83.zx(x16 & 0xfff, 17) + sm83.zx(y16 & 0xfff, 17), 0xfff)),
+            "cpu.c16": ([x16, y16], z3.UGT(sm83.zx(x16, 17) + sm83.zx(y16, 17), 0xffff)),
+            "cpu.hc8Sub": ([x8, y8], z3.ULT(x8 & 0xf, y8 & 0xf)), "cpu.c8Sub": ([x8, y8], z3.ULT(x8, y8))}
+    for fn, (args, want) in pure.items():
+        viol = []
+        for (s, r) in run(fn, args, base.fork()):
+            viol.append(z3.And(s.pcond(), z3.Or(r != want, *frame(s, base, ()))))
+        lem.add("lemma:helper:%s-is-the-documented-carry" % fn.split(".")[1], z3.Or(*viol) if viol else z3.BoolVal(True))
+    for nm, bit in (("zf", 0x80), ("nf", 0x40), ("hf", 0x20), ("cf", 0x10)):
+        viol = []
+        for (s, r) in run(CPU + nm, [b.cpu], base.fork()):
+            viol.append(z3.And(s.pcond(), r != ((F & bit) != 0)))
+        lem.add("lemma:helper:%s-reads-its-flag-bit" % nm, z3.Or(*viol) if viol else z3.BoolVal(True))
+        vb = z3.Bool("flagvalue")
+        viol = []
+        for (s, _) in run(CPU + "set" + nm[0].upper() + nm[1:], [b.cpu, vb], base.fork()):
+            viol.append(z3.And(s.pcond(), z3.Or(fld(eng, s, b, "f") != z3.If(vb, F | bit, F & ~bit & 0xff), *frame(s, base, ("f",)))))
+        lem.add("lemma:helper:set%s-writes-only-its-flag-bit" % (nm[0].upper() + nm[1:]), z3.Or(*viol) if viol else z3.BoolVal(True))
+    lem.stats = dict(eng.stats)
+    return lem
